@@ -30,7 +30,7 @@ ASSUMPTIONS = [
     'HITRAN gaps: master temperature grid = union over ranges; inside a range\'s own temperature span linear interpolation, outside zero',
     'HDF5 cross-section files identify the molecule by their mol_name dataset (as written by ExoMol), which is generated already sanitised',
 ]
-REQUIRED = {'ktable:descending-wavenumbers': 0.03, 'cia:gap-inside-band': 0.01, 'cia:negative-in-gapped-band': 0.006, 'cia:ranges-listed-descending': 0.01, 'cia:overlapping-ranges': 0.006, 'part:xsec': 0.1, 'part:ktable': 0.05, 'part:cia': 0.05, 'part:cache': 0.1}
+REQUIRED = {'cia:range-spelt-differently': 0.04, 'request-while-absent': 0.03, 'ktable:descending-wavenumbers': 0.03, 'cia:gap-inside-band': 0.01, 'cia:negative-in-gapped-band': 0.006, 'cia:ranges-listed-descending': 0.01, 'cia:overlapping-ranges': 0.006, 'part:xsec': 0.1, 'part:ktable': 0.05, 'part:cia': 0.05, 'part:cache': 0.1}
 # coverage-guided extra (thorough tier): pure-Python taurex modules on this property's path, instrumented by atheris
 FUZZ = {'include': ['taurex.opacity', 'taurex.cia', 'taurex.cache', 'taurex.util.util'], 'runs': 8000, 'workers': 4}
 
@@ -84,12 +84,18 @@ def _case(draw, part=None):
         # further noise entries below zero anywhere in the table (also next to a temperature a band does not tabulate)
         c['neg_at'] = draw(st.lists(st.tuples(S.ints(0, 11), S.ints(0, 11)), min_size=0, max_size=4))
         c['block_order'] = draw(st.sampled_from(['descending', 'ascending', 'rotated']))
+        # the header of every temperature block spells the wavenumber range of its band; the same range may be spelt
+        # differently from block to block (20.000 / 20.0 / 2.000000E+01): the spelling carries no meaning
+        c['hdr_forms'] = draw(st.sampled_from([None, [0, 1, 2], None, [2, 0, 1], [1, 1, 0]]))
     if part == 'cache':
         pool = st.sampled_from(['get', 'set_interp', 'get', 'clear', 'path_b', 'path_a', 'add', 'get', 'memory'])
         # every history contains a load, a mode change and a further request somewhere
         c['ops'] = draw(st.lists(pool, max_size=5)) + ['get', 'set_interp'] + draw(st.lists(st.sampled_from(['path_b', 'path_a']), max_size=1)) + \
             ['get'] + draw(st.lists(pool, max_size=5))
         c['fmt'] = draw(st.sampled_from(['pickle', 'hdf5', 'exo']))
+        # a request made while the configured path does not hold the molecule (it fails), before the path is moved on
+        if draw(S.ints(0, 2)) == 0:
+            c['ops'] = ['path_e', 'get'] + draw(st.lists(st.sampled_from(['path_a', 'path_b']), min_size=1, max_size=1)) + c['ops']
     return c
 
 
@@ -301,6 +307,9 @@ def check_cia(out, c, tmp):
         Tg = t['T0'] + np.concatenate([[0.0], np.cumsum(c['cia_dT'])])[:c['cia_nT']]
     nW = t['nW']
     wn = t['wn0'] + t['dwn'] * np.arange(nW)
+    if c.get('hdr_forms'):
+        out.cls('cia:range-spelt-differently')
+        wn = float(round(t['wn0'])) + float(max(1, round(t['dwn']))) * np.arange(nW)     # whole numbers: every spelling is exact
     n = len(Tg) * nW
     delta = np.resize(np.array(t['delta'], dtype=float), n).reshape(len(Tg), nW)
     coef = 10.0 ** (-44.0 + delta)                    # cm5 molecule-2, HITRAN magnitude
@@ -347,8 +356,9 @@ def check_cia(out, c, tmp):
                 order_t = order_t[::-1]
             elif c.get('block_order') == 'rotated' and len(order_t) > 1:
                 order_t = order_t[1:] + order_t[:1]
-            for it in order_t:
-                f.write('%20s %9.3f %9.3f %6d %6.1f %9.3e %5.3f %27s %3d\n' % (pair, wn[idx_[0]], wn[idx_[-1]], len(idx_), Tg[it], abs(coef[it, idx_]).max(), -0.999, 'verif', 1))
+            for ib, it in enumerate(order_t):
+                hf = ['%9.3f', '%9.1f', '%.6E'][c['hdr_forms'][ib % 3]] if c.get('hdr_forms') else '%9.3f'
+                f.write(('%20s ' + hf + ' ' + hf + ' %6d %6.1f %9.3e %5.3f %27s %3d\n') % (pair, wn[idx_[0]], wn[idx_[-1]], len(idx_), Tg[it], abs(coef[it, idx_]).max(), -0.999, 'verif', 1))
                 for k in idx_:
                     f.write('%10.4f %.10e\n' % (wn[k], coef[it, k]))
     wn_file = np.array([float('%10.4f' % x) for x in wn])
@@ -450,6 +460,16 @@ def check_cache(out, c, tmp):
             write_hdf5(os.path.join(d, '%s.h5' % plain), wn, Tg, P_unit, t['unit'], tabs[k], plain)
         else:
             write_exo(os.path.join(d, 'opac%s.dat' % plain), wn, Tg, P_pa / 1e5, tabs[k])
+    # a third directory that holds another molecule only
+    dirs['e'] = os.path.join(tmp, 'E')
+    os.makedirs(dirs['e'])
+    other_mol = 'CH4' if plain != 'CH4' else 'CO2'
+    if c['fmt'] == 'pickle':
+        write_pickle(os.path.join(dirs['e'], '%s.R1.TauREx.pickle' % other_mol), wn, Tg, P_pa / 1e5, tab)
+    elif c['fmt'] == 'hdf5':
+        write_hdf5(os.path.join(dirs['e'], '%s.h5' % other_mol), wn, Tg, P_unit, t['unit'], tab, other_mol)
+    else:
+        write_exo(os.path.join(dirs['e'], 'opac%s.dat' % other_mol), wn, Tg, P_pa / 1e5, tab)
     synth.reset_world()
     oc = OpacityCache()
     cut(out, 'set_opacity_path', oc.set_opacity_path, dirs['a'])
@@ -461,7 +481,15 @@ def check_cache(out, c, tmp):
     Pq = float(P_pa[0])
     mode_changed_after_load = False
     for op in c['ops']:
-        if op == 'get':
+        if op == 'get' and cached is None and manual is None and cur_path == 'e':
+            # nothing to load from here: the request fails, and leaves nothing behind that outlives the path
+            out.cls('request-while-absent')
+            try:
+                oc[plain]
+                out.fail('served-from-configured-path-and-mode@absent', 'a molecule the configured path does not hold was served')
+            except Exception:
+                pass
+        elif op == 'get':
             got = cut(out, 'cache-get', oc.__getitem__, plain)
             out.applies('same-object')
             if cached is not None and got is not cached:
@@ -490,7 +518,7 @@ def check_cache(out, c, tmp):
         elif op == 'clear':
             cut(out, 'clear_cache', oc.clear_cache)
             cached, manual = None, None
-        elif op in ('path_a', 'path_b'):
+        elif op in ('path_a', 'path_b', 'path_e'):
             cur_path = op[-1]
             cut(out, 'set_opacity_path', oc.set_opacity_path, dirs[cur_path])
         elif op == 'memory':
